@@ -385,12 +385,13 @@ func TestGroupOps(t *testing.T) {
 type funcCase struct {
 	Arch string `json:"arch"`
 	Fn   string `json:"fn"`
-	K    string `json:"k,omitempty"`  // the point is K*G unless X is given
-	X    string `json:"x,omitempty"`  // x coordinate of an arbitrary curve point (hex 32 bytes)
-	Odd  bool   `json:"odd"`          // which of the two points with that x
-	S    string `json:"s,omitempty"`  // scalar argument (hex, up to 32 bytes)
-	K2   string `json:"k2,omitempty"` // second point K2*G
-	Fmt  int    `json:"fmt"`          // 0 compressed, 1 uncompressed, 2 hybrid
+	K    string `json:"k,omitempty"`   // the point is K*G unless X is given
+	X    string `json:"x,omitempty"`   // x coordinate of an arbitrary curve point (hex 32 bytes)
+	Odd  bool   `json:"odd"`           // which of the two points with that x
+	S    string `json:"s,omitempty"`   // scalar argument (hex, up to 32 bytes)
+	K2   string `json:"k2,omitempty"`  // second point K2*G
+	Fmt  int    `json:"fmt"`           // 0 compressed, 1 uncompressed, 2 hybrid
+	Src  string `json:"src,omitempty"` // how the point was chosen (class label)
 }
 
 // point of the case: either K*G or the lifted X.
@@ -599,9 +600,74 @@ func checkFunc(c funcCase) error {
 
 var funcNames = []string{"decompress", "setxo", "xonly", "parse", "isvalid_off", "multiply", "basemultiply", "basemultiplyadd", "xy_addxy", "xy_neg", "precomp", "mul_lambda", "ecmult_any"}
 
+// cubeRootExp = (p+2)/9: for p = 7 (mod 9) a cubic residue a has the cube root a^((p+2)/9).
+var cubeRootExp = new(big.Int).Div(new(big.Int).Add(ec.P, big.NewInt(2)), big.NewInt(9))
+
+// pointWithY returns a curve point whose y coordinate is the given value, if one exists
+// (x = cube root of y^2-7; a third of the y have one).
+func pointWithY(y *big.Int) (ec.Point, bool) {
+	y = modP(y)
+	a := modP(new(big.Int).Sub(new(big.Int).Mul(y, y), big.NewInt(7)))
+	x := new(big.Int).Exp(a, cubeRootExp, bigP)
+	if !ec.OnCurve(x, y) {
+		return ec.Infinity, false
+	}
+	return ec.Point{X: x, Y: y}, true
+}
+
+// genSpecialY: y coordinates for which a square-root routine is likely to leave a non-canonical
+// representation or a special limb pattern: tiny y, p - tiny, values next to the limb boundaries
+// 2^(26i) / 2^(52i), (p-1)/2 +- small, all-ones limbs.
+func genSpecialY(t *rapid.T) *big.Int {
+	small := new(big.Int).SetUint64(rapid.Uint64Range(1, 1<<33).Draw(t, "ysmall"))
+	if rapid.Bool().Draw(t, "ytiny") {
+		small = new(big.Int).SetUint64(uint64(rapid.IntRange(1, 2000).Draw(t, "ytiny_v")))
+	}
+	var y *big.Int
+	switch rapid.IntRange(0, 5).Draw(t, "ykind") {
+	case 0, 1:
+		y = small
+	case 2:
+		y = new(big.Int).Sub(bigP, small)
+	case 3: // next to a limb boundary
+		b := uint(rapid.SampledFrom([]int{26, 52, 78, 104, 130, 156, 182, 208, 234}).Draw(t, "ylimb"))
+		y = pow2(b)
+		if rapid.Bool().Draw(t, "ybelow") {
+			y.Sub(y, small)
+		} else {
+			y.Add(y, small)
+		}
+	case 4:
+		y = new(big.Int).Rsh(bigP, 1)
+		if rapid.Bool().Draw(t, "ybelow") {
+			y.Sub(y, small)
+		} else {
+			y.Add(y, small)
+		}
+	default: // one limb all-ones, the rest tiny
+		b := uint(rapid.SampledFrom([]int{0, 26, 52, 104, 156, 204}).Draw(t, "ylimb"))
+		y = new(big.Int).Lsh(new(big.Int).Sub(pow2(52), one), b)
+		y.Add(y, small)
+	}
+	return modP(y)
+}
+
 func genFuncCase(t *rapid.T) funcCase {
 	c := funcCase{Arch: arch, Fn: rapid.SampledFrom(funcNames).Draw(t, "fn"), Fmt: rapid.IntRange(0, 2).Draw(t, "fmt"), Odd: rapid.Bool().Draw(t, "odd")}
-	if rapid.Bool().Draw(t, "arbitrary_x") {
+	switch rapid.IntRange(0, 3).Draw(t, "point_source") {
+	case 0: // a point chosen by its y coordinate (special square roots)
+		y := genSpecialY(t)
+		for i := 0; i < 200; i++ {
+			if pt, ok := pointWithY(y); ok {
+				c.X, c.Odd, c.Src = hx(b32(pt.X)), pt.Y.Bit(0) == 1, "special_y"
+				// the functions that decompress
+				c.Fn = rapid.SampledFrom([]string{"setxo", "xonly", "parse", "decompress", "multiply", "basemultiplyadd", "setxo", "parse"}).Draw(t, "fn_y")
+				c.Fmt = 0
+				break
+			}
+			y = modP(y.Add(y, one))
+		}
+	case 1:
 		// arbitrary x; about half of them are on the curve
 		x := genFieldValue(t, "x")
 		if x.Cmp(bigP) >= 0 {
@@ -614,7 +680,8 @@ func genFuncCase(t *rapid.T) funcCase {
 			x = modP(new(big.Int).Add(x, one))
 		}
 		c.X = hx(b32(x))
-	} else {
+	}
+	if c.X == "" {
 		k := modN(genScalar(t, "k"))
 		if k.Sign() == 0 {
 			k = big.NewInt(1)
@@ -655,7 +722,10 @@ func TestFuncs(t *testing.T) {
 		c := genFuncCase(r.T)
 		r.Case(c)
 		r.Class(c.Fn)
-		if c.X != "" {
+		if c.Src != "" {
+			r.Class(c.Src)
+			r.Class(c.Src + "/" + c.Fn)
+		} else if c.X != "" {
 			r.Class("arbitrary_curve_point")
 		}
 		r.NonTrivial()
